@@ -37,7 +37,7 @@ func (c19) NumCases(tier string) int {
 }
 
 func (c19) Rule() string {
-	return "rounds of 2..16 goroutines under GOMAXPROCS in {2,4,8,16}; each goroutine parses, plans and drains (row or batch) its own list of 6..20 statements (all plan kinds, aggregates with ORDER/LIMIT, regexp filters, alias caches, error paths incl. rendering) with its own ExecuteCtx, over (a) private stores, (b) one shared read-only store, (c) one shared mutable store where goroutine g only touches keys prefixed g<g>_; storage calls yield or sleep 0..50 us (PRNG) to widen interleavings where a real store blocks. Built with the Go race detector. Non-trivial: a round in which at least two statements were in flight at the same time; distinct by the hash of the global order of storage events."
+	return "rounds of 2..16 goroutines under GOMAXPROCS in {2,4,8,16}; each goroutine parses, plans and drains (row or batch) its own list of 6..20 statements (all plan kinds, aggregates with ORDER/LIMIT, regexp filters, alias caches, error paths incl. rendering) with its own ExecuteCtx, over (a) private stores, (b) one shared read-only store, (c) one shared mutable store where goroutine g only touches keys prefixed g<g>_; storage calls yield or sleep 0..50 us (PRNG) to widen interleavings where a real store blocks; the stores hand keys and values out as slices of their own buffers (one backing array for all callers, canary bytes in the spare capacity) and check them after the round. Built with the Go race detector. Non-trivial: a round in which at least two statements were in flight at the same time; distinct by the hash of the global order of storage events."
 }
 
 func (c19) Assumptions() []string {
